@@ -170,6 +170,7 @@ def _root_.AslModel.Str.Rep.Mut.abs (s : Bytes) : Mut → Bytes
   | .refill n c => List.replicate n c
   | .reserve _ => s
   | .pokeFix a => s.take (a % (s.length + 1))
+  | .replaceMe a b => s.map fun c => if c == a then b else c
 
 /-- arguments the property quantifies over: NUL-free bytes, non-NUL chars, 32-bit ints -/
 def _root_.AslModel.Str.Rep.Mut.Valid : Mut → Prop
@@ -179,6 +180,7 @@ def _root_.AslModel.Str.Rep.Mut.Valid : Mut → Prop
   | .appendInt x => -2147483648 ≤ x ∧ x < 2147483648
   | .grow _ c => c ≠ 0
   | .refill _ c => c ≠ 0
+  | .replaceMe a b => a ≠ 0 ∧ b ≠ 0
   | _ => True
 
 theorem piece_le (len a b : Nat) : (piece len a b).1 + (piece len a b).2 ≤ len := by
@@ -246,6 +248,37 @@ theorem pokeFix_spec {r : Rep} {s : Bytes} (hm : Models r s) (a : Nat) :
     rw [← hcap]
     simp only [List.length_append, List.length_cons, List.length_take, List.length_drop]; omega
 
+theorem replaceMeBuf_spec (a b : UInt8) (ha : a ≠ 0) (hb : b ≠ 0) : ∀ (s tail : Bytes), NulFree s →
+    replaceMeBuf a b (s ++ 0 :: tail) = some (s.map (fun c => if c == a then b else c) ++ 0 :: tail)
+  | [], tail, _ => by
+    have : ((0 : UInt8) == a) = false := by
+      apply beq_false_of_ne; exact fun e => ha e.symm
+    simp [replaceMeBuf, this]
+  | c :: t, tail, hn => by
+    have hc : c ≠ 0 := hn c (by simp)
+    have ht : NulFree t := fun x hx => hn x (by simp [hx])
+    have ih := replaceMeBuf_spec a b ha hb t tail ht
+    have hc' : ((if c == a then b else c) == 0) = false := by
+      apply beq_false_of_ne
+      split
+      · exact hb
+      · exact hc
+    simp only [List.cons_append, replaceMeBuf, hc', Bool.false_eq_true, if_false, ih, Option.map_some, List.map_cons]
+
+theorem replaceMe_spec {r : Rep} {s : Bytes} (hm : Models r s) (a b : UInt8) (ha : a ≠ 0) (hb : b ≠ 0) :
+    ∃ r', r.replaceMe a b = some r' ∧ Models r' (s.map fun c => if c == a then b else c) := by
+  obtain ⟨hcap, hlen, hnf, tail, hbuf⟩ := hm
+  refine ⟨{ r with buf := s.map (fun c => if c == a then b else c) ++ 0 :: tail }, ?_, ?_, by simpa using hlen, ?_, tail, rfl⟩
+  · unfold Rep.replaceMe
+    rw [hbuf, replaceMeBuf_spec a b ha hb s tail hnf]; rfl
+  · show _ = r.cap
+    rw [← hcap, hbuf]; simp
+  · intro c hc
+    obtain ⟨x, hx, rfl⟩ := List.mem_map.mp hc
+    split
+    · exact hb
+    · exact hnf x hx
+
 /-- every mutation with admissible arguments stays in bounds, keeps the invariant and has its byte-string meaning -/
 theorem mutate_spec {r : Rep} {s : Bytes} (hm : Models r s) (m : Mut) (hv : m.Valid) :
     ∃ r', r.mutate m = some r' ∧ Models r' (Mut.abs s m) := by
@@ -293,6 +326,7 @@ theorem mutate_spec {r : Rep} {s : Bytes} (hm : Models r s) (m : Mut) (hv : m.Va
   | refill n c => exact refill_spec hm n c hv
   | reserve n => exact resize_reserve hm n
   | pokeFix a => exact pokeFix_spec hm a
+  | replaceMe a b => exact replaceMe_spec hm a b hv.1 hv.2
 
 /-- all histories -/
 theorem run_spec : ∀ (ms : List Mut) {r : Rep} {s : Bytes}, Models r s → (∀ m ∈ ms, m.Valid) →
